@@ -92,18 +92,30 @@ def parseSlOp (op : String) (a : List Int) : Option SlOp :=
   | "slice", some [] => some .slice
   | _, _ => none
 
+/-- a token of the wire format: `I/<t>/<op>/<args>/<res>` or `R/<t>` -/
+def parseTok {ι : Type} (pop : String → List Int → Option ι) (tok : String) : Option (Nat × Option (ι × Ret)) :=
+  match tok.splitOn "/" with
+  | ["R", t] => t.toNat?.map fun t => (t, none)
+  | ["I", t, op, args, res] => do
+    let t ← t.toNat?
+    let a ← parseInts args
+    let i ← pop op a
+    let r ← parseRet res
+    pure (t, some (i, r))
+  | _ => none
+
+/-- responses take the result announced by the thread's latest invocation -/
+def fillRets {ι : Type} : List (Nat × Ret) → List (Nat × Option (ι × Ret)) → Option (List (HEv ι Ret))
+  | _, [] => some []
+  | pend, (t, some (i, r)) :: rest => (fillRets ((t, r) :: pend) rest).map (HEv.inv t i r :: ·)
+  | pend, (t, none) :: rest =>
+    match lookupT pend t with
+    | some r => (fillRets pend rest).map (HEv.ret t r :: ·)
+    | none => none
+
 def parseHist {ι : Type} (pop : String → List Int → Option ι) (s : String) : Option (List (HEv ι Ret)) :=
   if s == "" then some [] else
-  (s.splitOn ";").mapM fun tok =>
-    match tok.splitOn "/" with
-    | ["R", t] => t.toNat?.map .ret
-    | ["I", t, op, args, res] => do
-      let t ← t.toNat?
-      let a ← parseInts args
-      let i ← pop op a
-      let r ← parseRet res
-      pure (.inv t i r)
-    | _ => none
+  ((s.splitOn ";").mapM (parseTok pop)).bind (fillRets [])
 
 def linAnswer (obj h : String) : String :=
   let ans (b : Option Bool) : String :=
